@@ -144,6 +144,15 @@ func (valdec mapDecoder) decodeMap(dec *Decoder, p interface{}) {
 		}
 		valdec.decodeKey(dec, kt, kp)
 		valdec.decodeValue(dec, vt, vp)
+		if valdec.kt.Kind() == reflect.Interface {
+			// a list, map or byte string cannot be the key of a Go map
+			if key := *(*interface{})(kp); key != nil && !reflect.TypeOf(key).Comparable() {
+				if dec.Error == nil {
+					dec.Error = DecodeError("hprose/io: unhashable map key of type " + reflect.TypeOf(key).String())
+				}
+				break
+			}
+		}
 		valdec.t.UnsafeSetIndex(mp, kp, vp)
 	}
 	dec.Skip()
